@@ -376,9 +376,82 @@ def validate_numtok(ctx):
     _cmp(ctx, "pgen.numtok", reqs, wants)
 
 
+# ------------------------------------------------------------------ one iteration of the token loop of parser._parse
+_STEP = {}
+
+
+def step_function():
+    """the body of `while i < len_l:` in parser._parse of the tree under test, compiled as a function of its free variables"""
+    import ast, inspect, textwrap
+    from dateutil.parser import _parser as P
+    if P in _STEP:
+        return _STEP[P]
+    tree = ast.parse(textwrap.dedent(inspect.getsource(P.parser._parse)))
+    loops = [n for n in ast.walk(tree) if isinstance(n, ast.While)]
+    assert len(loops) == 1
+    fn = ast.parse("def _step(self, l, i, len_l, info, res, ymd, skipped_idxs, fuzzy, timestr):\n    pass\n").body[0]
+    fn.body = loops[0].body + [ast.parse("return l, i, res, ymd, skipped_idxs").body[0]]
+    mod = ast.Module(body=[fn], type_ignores=[])
+    ast.fix_missing_locations(mod)
+    ns = dict(P.__dict__)
+    exec(compile(mod, "<while body of parser._parse>", "exec"), ns)
+    _STEP[P] = ns["_step"]
+    return _STEP[P]
+
+
+STEP_TEXTS = ["10:36:28 BRST", "10:36 GMT+3", "10:36 UTC-3", "10:36 -0300 (BRST)", "10:36 +03:00", "10:36 -3", "10:36 +0300", "10:36 -030",
+              "10:36 -03:00 (EST)", "10:36 +0300 (ABCDEF)", "10:36 +0300 , (BRT)", "Sep-25-2003", "Sep/25", "Sep-25", "Jan of 01", "Jan of ab",
+              "Jan of 2001", "September of 99", "Sep 25", "10 pm", "10pm", "am 10", "Thu Sep 25 10:36:28 2003", "Thursday", "10 a", "x y z",
+              "Sep-", "Sep - 25", "10:36 Z", "10:36 EST", "10:36 est", "10:36 ABCDEF", "10:36 +", "10:36 -ab", "10:36 +1:", "25 Sept 2003",
+              "of", "at", ",", "T10", "10 UTC+3", "10 BRST-3", "10 Z+1", "10 MSK", "pm", "PM", "noon", "12 vechera", "Pn", "yan-01-99"]
+
+
+def validate_step(ctx):
+    from dateutil.parser import _parser as P
+    rng = ctx.subrng("pgen.step")
+    n = ctx.budget(500, 3000)
+    step = step_function()
+    reqs, wants = [], []
+    for info, custom in _infos():
+        iw = _iw(info, custom)
+        p = P.parser(info)
+        for _ in range(n):
+            if rng.random() < 0.75:
+                text = rng.choice(STEP_TEXTS)
+                if rng.random() < 0.3:
+                    text = text + " " + rng.choice(STEP_TEXTS)
+                toks = P._timelex.split(text)
+            else:
+                toks, _i = gen_numtok_case(rng, info)
+            if not toks:
+                continue
+            i = rng.randrange(0, len(toks))
+            vals, cent, d, m, y = rng.choice(YMD_STATES)
+            hour = rng.choice([None, 10, 10, 13, 0]); ampm = rng.choice([None, None, 0]); tzn = rng.choice([None, None, None, "X"])
+            tzo = rng.choice([None, None, None, 0])
+            fz = rng.random() < 0.4
+            reqs.append("pgen.step %s %d %d %s %s %s|%d|%s|%s|%s %s %s %s %s" % (
+                iw, fz, i, ";".join(L.cps(t) for t in toks), L.classes("".join(toks)), ",".join(map(str, vals)), cent, _oi(d), _oi(m),
+                _oi(y), _oi(hour), _oi(ampm), L.optname(tzn), _oi(tzo)))
+            def run():
+                ymd = P._ymd()
+                list.extend(ymd, vals)
+                ymd.century_specified, ymd.dstridx, ymd.mstridx, ymd.ystridx = bool(cent), d, m, y
+                res = P.parser._result()
+                res.hour, res.ampm, res.tzname, res.tzoffset = hour, ampm, tzn, tzo
+                l2, i2, res, ymd, sk = step(p, list(toks), i, len(toks), info, res, ymd, [], fz, "text")
+                return "%d ; %s ; %s %s %s ; %s ; %s" % (
+                    i2, ";".join(L.cps(t) for t in l2),
+                    " ".join(_oi(x) for x in (res.weekday, res.hour, res.minute, res.second, res.microsecond, res.ampm)),
+                    L.optname(res.tzname), _oi(res.tzoffset), _state(ymd), ",".join(map(str, sk)))
+            wants.append(_r(run, str))
+    _cmp(ctx, "pgen.step", reqs, wants)
+
+
 def validate(ctx):
     """run every `pgen.*` validation (called from the correspondence of C14)"""
     validate_ymd(ctx)
     validate_info(ctx)
     validate_small(ctx)
     validate_numtok(ctx)
+    validate_step(ctx)
